@@ -114,7 +114,52 @@ def oracle_filter(inp):
     return None if got is not True else 'frame accepted although %s' % inp['why']
 
 
-ORACLES = {'frame': oracle_frame, 'filter': oracle_filter}
+def _reused_req(hA, hB, how):
+    """a request header object that was used before for hA and is now set to hB"""
+    ipmb = _ipmb()
+    if how == 'encoded-before':
+        o = mk_req(hA)
+        o.encode()
+    else:  # built from received data, then edited
+        o = ipmb.IpmbHeaderReq(data=bytes(mk_req(hA).encode()))
+    for k, v in zip(FIELDS, hB):
+        setattr(o, k, v)
+    return o
+
+
+def oracle_frame_reuse(inp):
+    """same as 'frame', but the header object has a history (encoded before / decoded from data)"""
+    ipmb = _ipmb()
+    hA, hB, d = inp['hA'], inp['h'], bytes.fromhex(inp['d'])
+    try:
+        f = ipmb.encode_ipmb_msg(_reused_req(hA, hB, inp['how']), d)
+    except Exception as e:  # noqa
+        return 'reused header %s raises %s: %s' % (hB, type(e).__name__, e)
+    exp = bytes([hB[0], (hB[5] << 2) | hB[1]])
+    exp += bytes([(-sum(exp)) % 256])
+    rest = bytes([hB[2], (hB[4] << 2) | hB[3], hB[6]]) + d
+    exp += rest + bytes([(-sum(rest)) % 256])
+    if bytes(f) != exp:
+        return 'header object %s (%s for %s before) gives frame %s, expected %s' % (hB, inp['how'], hA, bytes(f).hex(), exp.hex())
+    return None
+
+
+def oracle_filter_seq(inp):
+    """a sequence of rx_filter calls in one process, each passing only some options explicitly:
+    every call must behave as if it were the only one (defaults rq_sa/rs_sa/rq_lun off, rs_lun/rq_seq on)"""
+    ipmb = _ipmb()
+    for n, c in enumerate(inp['calls']):
+        try:
+            got = ipmb.rx_filter(mk_req(c['h']), bytes.fromhex(c['f']), **c['kw'])
+        except Exception as e:  # noqa
+            got = 'exception %s' % type(e).__name__
+        if (got is True) != (c['expect'] == 'accept'):
+            return 'call %d of the sequence: rx_filter(%s) returned %r, expected %s (%s)' % (n, c['kw'], got, c['expect'], c['why'])
+    return None
+
+
+ORACLES = {'frame': oracle_frame, 'filter': oracle_filter, 'frame_reuse': oracle_frame_reuse,
+           'filter_seq': oracle_filter_seq}
 
 
 def replay(data):
@@ -191,6 +236,17 @@ def run(ctx):
     for h in hs:
         oracle('frame', {'h': h, 'd': '0102'}, 'encode_ipmb_msg:frame-wrong')
         res.evaluations += 1
+    # header objects with a history: encoded before with other field values, or decoded from data and edited
+    for _ in range(120 if q else 1500):
+        hA, hB = rand_hdr(rng), rand_hdr(rng)
+        how = rng.choice(['encoded-before', 'decoded-then-edited'])
+        d = bytes(rng.randrange(256) for _ in range(rng.randrange(0, 6)))
+        r = attempt(lambda: ipmb.encode_ipmb_msg(_reused_req(hA, hB, how), d))
+        add('chk_encode %s %s %s' % (hl(hB), C.c_hex(d), exp_bytes(r)), ('encode-reused-header', how, hA, hB, d.hex()))
+        r = attempt(lambda: _reused_req(hA, hB, how).encode())
+        add('chk_req_enc %s %s' % (hl(hB), exp_bytes(r)), ('req_enc-reused-header', how, hA, hB))
+        oracle('frame_reuse', {'hA': hA, 'h': hB, 'd': d.hex(), 'how': how}, 'encode_ipmb_msg:reused-header-object')
+        D.add(('reuse', tuple(hA), tuple(hB), how), True, 'encode-reused-header')
     for h in malformed[:30]:
         r = attempt(lambda: ipmb.encode_ipmb_msg(mk_req(h), b'\x01\x02'))
         add('chk_encode %s %s %s' % (hl(h), C.c_hex(b'\x01\x02'), exp_bytes(r)), ('encode-malformed', h))
@@ -277,6 +333,49 @@ def run(ctx):
                 ('filter-short', n))
             oracle('filter', {'h': h, 'f': g.hex(), 'o': dflt, 'expect': 'reject', 'why': 'frame has only %d bytes' % n},
                    'rx_filter:accepts-short')
+    # --- sequences of rx_filter calls in ONE process, options passed only partially (the rest left
+    #     to the defaults), in random order: no call may influence a later one
+    DEF = dict(zip(OPTS, dflt))
+    for rep in range(6 if q else 60):
+        calls = []
+        for _ in range(40):
+            h = rand_hdr(rng)
+            h[5] &= 0x3e
+            f = list(build_reply(h, bytes(rng.randrange(256) for _ in range(rng.randrange(0, 4)))))
+            kw = {k: rng.random() < 0.5 for k in rng.sample(OPTS, rng.randrange(0, 4))}
+            eff = dict(DEF, **kw)
+            kind = rng.choice(['match', 'rq_seq', 'rs_lun', 'rq_lun', 'rq_sa', 'rs_sa'])
+            if kind == 'rq_seq':
+                f[4] ^= (rng.randrange(1, 64) << 2)
+            elif kind == 'rs_lun':
+                f[4] ^= rng.randrange(1, 4)
+            elif kind == 'rq_lun':
+                f[1] ^= rng.randrange(1, 4)
+            elif kind == 'rq_sa':
+                f[0] ^= rng.randrange(1, 256)
+            elif kind == 'rs_sa':
+                f[3] ^= rng.randrange(1, 256)
+            f = fix_checksums(f)
+            reject = kind != 'match' and eff[kind]
+            calls.append({'h': h, 'f': f.hex(), 'kw': kw, 'expect': 'reject' if reject else 'accept',
+                          'why': '%s differs, its check is %s (explicit %s, defaults otherwise)' % (kind, 'on' if kind != 'match' and eff[kind] else 'off', kw)
+                          if kind != 'match' else 'intact matching reply'})
+        # correspondence: observed result of every call of the sequence vs the (stateless) model
+        for c in calls:
+            r = attempt(lambda: ipmb.rx_filter(mk_req(c['h']), bytes.fromhex(c['f']), **c['kw']))
+            obs = 2 if isinstance(r, Exception) else int(bool(r))
+            eff = dict(DEF, **c['kw'])
+            add('chk_filter %s %s %s %d' % (hl(c['h']), C.c_hex(bytes.fromhex(c['f'])),
+                                            C.c_list([C.c_bool(eff[k]) for k in OPTS]), obs), ('filter-sequence', c['kw']))
+            D.add(('seq', c['f'], tuple(sorted(c['kw'].items()))), True, 'filter-sequence')
+        # oracle on the whole history; shrink to the shortest failing prefix + drop irrelevant calls
+        msg = ORACLES['filter_seq']({'calls': calls})
+        if msg and 'rx_filter:call-depends-on-earlier-calls' not in fails:
+            seq = C.shrink_history('C03', 'filter_seq', calls) or calls
+            fails['rx_filter:call-depends-on-earlier-calls'] = C.Violation(
+                key='rx_filter:call-depends-on-earlier-calls',
+                what=(ORACLES['filter_seq']({'calls': seq}) or msg) + ' [history of %d call(s)]' % len(seq),
+                replay={'oracle': 'filter_seq', 'input': {'calls': seq}})
     failing, errors = C.coq_cases('C03', 'Corr.C03', terms)
     res.mismatches = [{'case': meta[i], 'term': terms[i]} for i in failing[:50]]
     res.corr_errors = errors
